@@ -22,7 +22,9 @@ WordRx == Rgx(RxPlus(Cls(<<a, b>>)))
 
 Rules1 ==
     [ start |-> Rule(Star(Ref("Item"))),
-      Item  |-> Rule(Ch3(Ref("Pair"), Ref("Group"), Ref("Word"))),
+      Item  |-> Rule(<<"choice", <<Ref("Pair"), Ref("Group"), Ref("Mark"), Ref("Word")>>>>),
+      \* a class without any field (only pass / let members) still consumes input and has a span
+      Mark  |-> Class(<<PassM(Str(<<plus>>)), LetF("more", Opt(Str(<<plus>>)))>>),
       Word  |-> Class(<<Field("w", WordRx)>>),
       \* tried first and abandoned unless a "+" follows: builds instances that are dropped
       Pair  |-> Class(<<Field("l", Ref("Word")), Field("op", Str(<<plus>>)), Field("r", Ref("Word"))>>),
@@ -41,6 +43,13 @@ Rules3 ==
       Box   |-> ClassP(<<"p">>, <<Field("it", Ref("p"))>>),
       T     |-> Rule(Star(Call("Box", <<Pos(Ref("Word"))>>))) ]
 
+(* an instance captured inside lookahead lies beyond the end of the match (and of what parse consumed) *)
+Rules4 ==
+    [ start |-> Rule(Ref("H")),
+      H     |-> Class(<<Field("w", Ref("Word")),
+                        Field("next", Opt(Expect(Right(Rgx(RxPlus(Cls(<<sp, NL>>))), Ref("Word")))))>>),
+      Word  |-> Class(<<Field("w", WordRx)>>) ]
+
 Ign == <<Rgx(RxPlus(Cls(<<sp, NL>>)))>>
 
 Grammar(i) ==
@@ -49,10 +58,12 @@ Grammar(i) ==
       [] i = 3 -> [rules |-> Rules2, ign |-> <<>>, start |-> "start"]
       [] i = 4 -> [rules |-> Rules2, ign |-> Ign, start |-> "start"]
       [] i = 5 -> [rules |-> Rules3, ign |-> Ign, start |-> "start"]
+      [] i = 6 -> [rules |-> Rules4, ign |-> <<>>, start |-> "start"]
 
 Entries(i) == CASE i \in {1, 2} -> <<"start", "Item", "Group">>
                 [] i \in {3, 4} -> <<"start", "A">>
                 [] i = 5 -> <<"start", "T">>
+                [] i = 6 -> <<"start", "H">>
 
 N == IF Tier = "quick" THEN 4 ELSE 5
 Texts(i) ==
@@ -63,11 +74,12 @@ Texts(i) ==
       [] i = 3 -> TextSeqUpTo(<<a, b>>, N + 1)
       [] i = 4 -> TextSeqUpTo(<<a, b, sp, NL>>, N) \o << <<b, NL, a, sp, b, NL, a, NL>> >>
       [] i = 5 -> TextSeqUpTo(<<a, plus, sp, NL>>, N) \o << <<a, sp, plus, NL, b, plus, a, b, NL>> >>
+      [] i = 6 -> TextSeqUpTo(<<a, sp, NL>>, N + 1) \o << <<a, b, NL, NL, b, a, sp, a>>, <<a, sp, NL, sp, b, b, NL>> >>
 
 VARIABLES gi, en, done
 vars == <<gi, en, done>>
 
-Init == gi \in 1..5 /\ en \in 1..Len(Entries(gi)) /\ done = FALSE
+Init == gi \in 1..6 /\ en \in 1..Len(Entries(gi)) /\ done = FALSE
 
 RunF(G, entry, txt, p) ==
     LET r == EvalEntry(G, entry, txt, p) IN <<entry, txt, p, r.t, Finalize(r.v, txt), r.e, r.far>>
@@ -93,7 +105,7 @@ SpansOK(v, lo, hi) ==
       [] OTHER -> TRUE
 
 LawNesting ==
-    done =>
+    (done /\ gi # 6) =>          \* (lookahead aside, as the property says)
     \A j \in 1..Len(Texts(gi)) :
         LET r == EvalEntry(Grammar(gi), Entries(gi)[en], Texts(gi)[j], 0) IN
         r.t = "ok" => SpansOK(r.v, 0, r.e)
